@@ -448,7 +448,7 @@ class FullStation:
             return cb(ind)
         return wrapped
 
-    def run(self, timeout=30.0):
+    def run(self, timeout=90.0):
         self.gate.set()
         self.ll.receiving_thread.join(timeout)
         return not self.ll.receiving_thread.is_alive()
@@ -671,12 +671,12 @@ def job_fuzz(idx, seed, runs):
 
 
 def jobs(tier, seed):
-    k = 1 if tier == "quick" else 40
+    k = 1 if tier == "quick" else 12
     js = [{"fn": "vf.props.c04:job", "args": {"n": 120 * k, "seed": seed * 1000 + s}} for s in range(16)]
     if tier == "quick":
         js += [{"fn": "vf.props.c04:job_fuzz", "args": {"idx": i, "seed": seed, "runs": 1500}} for i in range(2)]
     else:
-        js += [{"fn": "vf.props.c04:job_fuzz", "args": {"idx": i, "seed": seed, "runs": 60000}} for i in range(16)]
+        js += [{"fn": "vf.props.c04:job_fuzz", "args": {"idx": i, "seed": seed, "runs": 20000}} for i in range(16)]
     return js
 
 
